@@ -6,6 +6,10 @@ sys.path.insert(0, os.path.dirname(os.path.abspath(__file__)))
 
 # property id -> (module under lib/, evidence level)
 TABLE = {
+    "C01": ("p_routing", "model_checking"),
+    "C02": ("p_routing", "model_checking"),
+    "C03": ("p_routing", "model_checking"),
+    "C04": ("p_routing", "model_checking"),
     "C05": ("p_ring", "model_checking"),
 }
 
